@@ -8,15 +8,27 @@ namespace Cjet.Daemon.C05
 
 open Cjet Cjet.Json Cjet.Daemon
 
-/-- every send in `d` addresses a member of `cs` -/
-def Live (cs : List Nat) (d : List Obs) : Prop := ∀ c j b, Obs.send c j b ∈ d → c ∈ cs
+/-- every send in `d` addresses a member of `cs`, and no connection is reported closed -/
+def Live (cs : List Nat) (d : List Obs) : Prop :=
+  (∀ c j b, Obs.send c j b ∈ d → c ∈ cs) ∧ (∀ c, Obs.closed c ∉ d)
 
-theorem Live.nil (cs : List Nat) : Live cs [] := by intro c j b h; cases h
+theorem Live.nil (cs : List Nat) : Live cs [] := ⟨(by intro c j b h; cases h), (by intro c h; cases h)⟩
 theorem Live.append {cs : List Nat} {a b : List Obs} (ha : Live cs a) (hb : Live cs b) : Live cs (a ++ b) := by
-  intro c j ok h
-  rcases List.mem_append.1 h with h | h
-  · exact ha c j ok h
-  · exact hb c j ok h
+  constructor
+  · intro c j ok h
+    rcases List.mem_append.1 h with h | h
+    · exact ha.1 c j ok h
+    · exact hb.1 c j ok h
+  · intro c h
+    rcases List.mem_append.1 h with h | h
+    · exact ha.2 c h
+    · exact hb.2 c h
+
+/-- timer observations -/
+def isTimer : Obs → Prop
+  | .timerArm _ _ => True
+  | .timerDestroy _ => True
+  | _ => False
 
 /-- `x'` is reached from `x` by handler code: the invariant holds again, the same connections
     exist, the output was only extended, and every new send addresses a live connection. -/
@@ -41,19 +53,25 @@ theorem Ok.of_out_eq {x x' : Ctx} (hi : Inv x'.st) (hc : conns x'.st.peers = con
 
 theorem Ok.send {x : Ctx} (h : Inv x.st) {c : Nat} (hc : c ∈ conns x.st.peers) (j : Json) :
     Ok x (send x c j).1 := by
-  refine ⟨by simpa using h, by simp, [Obs.send c j (Daemon.send x c j).2], by simp [send_out], ?_⟩
-  intro c' j' b' hm
-  simp only [List.mem_singleton] at hm
-  cases hm; exact hc
+  refine ⟨by simpa using h, by simp, [Obs.send c j (Daemon.send x c j).2], by simp [send_out], ?_, ?_⟩
+  · intro c' j' b' hm
+    simp only [List.mem_singleton] at hm
+    cases hm; exact hc
+  · intro c' hm
+    simp only [List.mem_singleton] at hm
+    cases hm
 
 theorem Ok.send' {x : Ctx} (h : Inv x.st) {c : Nat} (hc : c ∈ conns x.st.peers) (j : Json) :
     Ok x (send' x c j) := Ok.send h hc j
 
-theorem Ok.emit {x : Ctx} (h : Inv x.st) (o : Obs) (ho : ∀ c j b, o ≠ Obs.send c j b) : Ok x (emit x o) := by
-  refine ⟨h, rfl, [o], rfl, ?_⟩
-  intro c j b hm
-  simp only [List.mem_singleton] at hm
-  exact absurd hm.symm (ho c j b)
+theorem Ok.emit {x : Ctx} (h : Inv x.st) (o : Obs) (ho : isTimer o) : Ok x (emit x o) := by
+  refine ⟨h, rfl, [o], rfl, ?_, ?_⟩
+  · intro c j b hm
+    simp only [List.mem_singleton] at hm
+    subst hm; exact ho.elim
+  · intro c hm
+    simp only [List.mem_singleton] at hm
+    subst hm; exact ho.elim
 
 theorem foldl_ok {α : Type} (f : Ctx → α → Ctx) (l : List α) (x : Ctx) (h : Inv x.st)
     (hf : ∀ y a, a ∈ l → Inv y.st → Ok y (f y a)) : Ok x (l.foldl f x) := by
